@@ -326,3 +326,51 @@ def belongs(tag, schema):
 
 def finite(x):
     return not (isinstance(x, float) and (math.isnan(x) or math.isinf(x)))
+
+
+# ------------------------------------------------------------------ "lived-in" operands
+LIVED_REALISED = [0, 0]      # [vectors with a realised history, fall-backs to a fresh vector] in this process
+
+
+def lived_in(make, vals, seed):
+    """A vector holding exactly `vals`, but one that has a PAST: it is built (by `make`) over the same values
+    in another order, every cheap read-only operation is run on it once (whatever they memoise is now
+    memoised), and then the values are moved into place by in-place writes.  Every operation of the library is a
+    function of the vector's CURRENT contents, so a check may use such a vector wherever it would use a fresh
+    one; anything remembered across the writes (a sum, a fingerprint, a sorted copy, a broadcast result keyed
+    by the identity of freed storage ...) then shows as a wrong answer.  Falls back to a fresh vector whenever
+    the history cannot be realised exactly (dtype conversions on write, refused writes)."""
+    import random
+    n = len(vals)
+    if n < 2:
+        return make(list(vals))
+    rng = random.Random(seed)
+    perm = list(range(n))
+    rng.shuffle(perm)
+    try:
+        v = make([vals[p] for p in perm])
+        for probe in (lambda: v.sum(), lambda: v.mean(), lambda: v.min(), lambda: v.max(), lambda: v.stdev(),
+                      lambda: v.any(), lambda: v.all(), lambda: v.fingerprint(), lambda: v == v, lambda: v.isna(),
+                      lambda: v.dropna(), lambda: v.sort_by(), lambda: v[0:], lambda: -v, lambda: repr(v),
+                      lambda: v.real, lambda: v.year, lambda: v.upper(), lambda: v + v, lambda: v.copy()):
+            try:
+                probe()
+            except Exception:                                # noqa: BLE001
+                pass
+        order = list(range(n))
+        rng.shuffle(order)
+        for i in order:                                      # two passes: every cell is written at least once
+            v[i] = vals[i]
+        for i in order[: max(1, n // 2)]:
+            v[i] = vals[i]
+        got = list(v._underlying)
+        if len(got) == n and all(type(a) is type(b) and (a is b or a == b or (a != a and b != b))
+                                 for a, b in zip(got, vals)):
+            fresh = make(list(vals))
+            if repr(v.schema()) == repr(fresh.schema()):
+                LIVED_REALISED[0] += 1
+                return v
+    except Exception:                                        # noqa: BLE001
+        pass
+    LIVED_REALISED[1] += 1
+    return make(list(vals))
